@@ -522,6 +522,7 @@ func check(prop, tier string, runsOverride int) int {
 		seen[k] = true
 		exit = 1
 		if reported >= 4 {
+			fmt.Printf("  (further unlisted class, no replay written: clause=%s class=%s seed=%d)\n", x.v.Clause, x.v.Class, x.meta.seed)
 			continue
 		}
 		reported++
